@@ -4,6 +4,7 @@ mod formula;
 mod parse;
 mod cli;
 mod env;
+mod dot;
 mod watchdog;
 
 use std::io::Write;
@@ -41,6 +42,7 @@ fn main() {
         "C10" => cli::c10(&mut out, tier, &mut rng, &mut st),
         "C11" => cli::c11(&mut out, tier, &mut rng, &mut st),
         "C13" => env::c13(&mut out, tier, &mut rng, &mut st),
+        "C14" => dot::c14(&mut out, tier, &mut rng, &mut st),
         "C02" => bddprops::c02(&mut out, tier, &mut rng, &mut st),
         "C03" => bddprops::c03(&mut out, tier, &mut rng, &mut st),
         "C04" => bddprops::c04(&mut out, tier, &mut rng, &mut st),
